@@ -30,6 +30,14 @@ CHECKS = {
             'Every placement (far outside, on faces, inside) in right/left-handed, tilted and rotated cells under all periodicity settings is executed; image flags must reconstruct positions, non-periodic directions may only grow the cell, '
             'normalize must be a proper rotation preserving all true nearest-image distances (exhaustive lattice search) and the input. The second wrap starts from a non-initial state.', '2 C05',
             'systems of 1-3 atoms; 1e-11 scaled tolerance; atoms nominally on a face may be assigned to either side'),
+    'C07': (EX, 'bounded-exhaustive enumeration of systems x 8 pbc x every atom_style x 8 unit styles x float formats (data files), column variants (dump files), table and POSCAR options; every written file is parsed by independent format readers and compared column by column',
+            'Every file of the product is written by the real dump code and read by parsers written from the LAMMPS read_data / dump and VASP POSCAR rules (no atomman loader), with an independent LAMMPS unit table; header counts, bounds/tilt conventions, '
+            'ids, atoms inside the written box, positions after image flags / unscaling, velocities, charges, extra columns and the info snippet are checked to the printed precision. Right level: stateless writers, quantifier over inputs and option combinations.', '2 C07',
+            'tolerance = half a unit of the last printed digit propagated through image-flag/bounds arithmetic; unit oracle = LAMMPS units page + CODATA (scipy); systems of 3-6 atoms'),
+    'C20': (EX, 'bounded-exhaustive enumeration of integrators x dimensions 1-6 x matrix kinds x vectors x step sizes, gradient functions x points x shapes x shifts, and two-minimum surfaces x strings x image counts x time steps x integrators, each against closed-form oracles',
+            'Every element is executed on the real integrator / gradient / ISMPath code: one step equals the Taylor polynomial of exp(hA) (algebraic identity), error ratios on halving h lie in a derived interval around 2^(p+1), the central difference is second order, '
+            'and every relaxation run to its own convergence ends in the closed-form minima and saddle with the true barrier. Right level: numerical-order clauses are decided to a derived tolerance on a complete grid.', '2 C20',
+            'relaxation oracle tied to the documented convergence tolerance max(N^-4,1e-10); quick tier = a covering sub-product of the relaxation menu (asserted), thorough = the full product'),
     'C09': (MC, 'explicit-state BFS over reset_units histories of the module-global unit table (state = last accepted call) plus bounded-exhaustive enumeration of the unit-expression grammar in every table state',
             'The working-unit table is global mutable state: all histories of depth <= 2 (3 in thorough over a reduced alphabet) of reset_units calls are replayed and the table compared with the table after the last call alone; '
             'every expression tree up to the depth bound x parenthesisations x whitespace renderings is parsed by the real code and compared with direct evaluation, in every configuration. Right level: history-dependent global state + a finite grammar.', '2 C09',
